@@ -74,6 +74,41 @@ def ip2Hash : Nat → Nat → UInt64 → UInt64
   | 0, _, h => h
   | n + 1, x, h => ip2Hash n (x + 1) (mixStep h (if isPowerOf2 x then 1 else 0))
 
+/-- running summary of a bulk op: blocks obtained, all aligned, hash of their addresses in order -/
+structure Bulk where
+  cnt : Nat := 0
+  al : Bool := true
+  h : UInt64 := 0xcbf29ce484222325
+
+def Bulk.add (b : Bulk) (q : Nat) (al : Bool) : Bulk :=
+  { cnt := b.cnt + 1, al := b.al && al, h := mixStep b.h (UInt64.ofNat q) }
+
+def Bulk.fmt (b : Bulk) (w : World) : String :=
+  s!"n={b.cnt} al={if b.al then 1 else 0} in=1 dj=1 ct=1 ## h={b.h.toNat} {live w}"
+
+/-- `n` times `slab_alloc` (the objects stay with the client until the slab is destroyed) -/
+def sbulkLoop (par align mis : Nat) : Nat → World → Slab → Bulk → World × Slab × Bulk
+  | 0, w, sl, acc => (w, sl, acc)
+  | n + 1, w, sl, acc =>
+    let (w1, pa) := match slabAllocReq sl with
+      | some req => cxAllocW fuelW w par req mis
+      | none => (w, none)
+    let (sl', r) := slabAlloc sl pa
+    let acc' := match r with
+      | some q => acc.add q (q % (if align == 16 && par == 0 then 16 else 8) == 0)
+      | none => acc
+    sbulkLoop par align mis n w1 sl' acc'
+
+/-- `n` times `cx_alloc(slot, size)` (the blocks stay with the client until the allocator is destroyed) -/
+def abulkLoop (slot size mis : Nat) : Nat → World → Bulk → World × Bulk
+  | 0, w, acc => (w, acc)
+  | n + 1, w, acc =>
+    let (w1, r) := cxAllocW fuelW w slot size mis
+    let acc' := match r with
+      | some q => acc.add q (alOf w1 slot q)
+      | none => acc
+    abulkLoop slot size mis n w1 acc'
+
 def step (w : World) (line : String) : World × String :=
   let ws := words line
   let bad := (w, "bad-op")
@@ -215,6 +250,27 @@ def step (w : World) (line : String) : World × String :=
            | none => (w2, s!"{obsOk true} ## null {live w2}"))
         | _ => bad)
      | _, _, _ => bad)
+  | ["sbulk", s, n, mis] =>
+    (match num s, num n, num mis with
+     | some s, some n, some mis =>
+       (match w.slot s with
+        | some (.slab sl par osz al) =>
+          if n > 4000000 then bad else
+          let (w1, sl', acc) := sbulkLoop par al mis n w sl {}
+          let w2 := w1.setSlot s (.slab sl' par osz al)
+          (w2, acc.fmt w2)
+        | _ => bad)
+     | _, _, _ => bad)
+  | ["abulk", s, n, size, mis] =>
+    (match num s, num n, num size, num mis with
+     | some s, some n, some size, some mis =>
+       (match w.slot s with
+        | some (.pool ..) | some (.troot ..) | some (.tsub ..) | some (.talloc ..) =>
+          if n > 4000000 || size ≥ 2 ^ 32 || size == 0 then bad else
+          let (w1, acc) := abulkLoop s size mis n w {}
+          (w1, acc.fmt w1)
+        | _ => bad)
+     | _, _, _, _ => bad)
   | ["sf", s, b] =>
     (match num s, num b with
      | some s, some b =>
